@@ -211,6 +211,29 @@ def campaign(c):
                 try: os.remove(os.path.join(d, nme + '.pcap'))
                 except OSError: pass
             c.case(('batch', j), dict(kind='batch', bad=bad.decode('utf-8', 'replace')))
+        # the command-line loop against its model (Model/Batch.lean): random batches of valid, mutated and unreadable inputs, same
+        # and different stems, with and without --keep; exit status, one report per input in order, resulting output directory
+        from .. import batch
+        for j in range(25 if c.quick else 400):
+            r = c.rng.fork('bat%d' % j)
+            ins = []
+            for k in range(1 + r.below(4)):
+                kind = r.below(8)
+                srcb = ProgGen(lib, r, max_stmts=4, payload_max=20).program()
+                if kind == 0: srcb = mutate(srcb, r)
+                elif kind == 1: srcb = r.choice([b'let x = ;\n', b'@\n', b'import nosuch;\n', b'\xff\xfe\n', b'import eth;\neth::frame("|00|", "|00|");\n', b'', b'"junk"'])
+                i = dict(stem=r.choice(['a', 'b', 'c', 'a', 'z.y', 'é']), src=srcb)
+                if kind == 2: i = dict(stem=i['stem'], src=None)
+                elif kind == 3: i = dict(stem=i['stem'], src=None, isdir=True)
+                elif kind == 4 and r.chance(1, 3): i = dict(stem=None, src=None)
+                ins.append(i)
+            keep = r.chance(1, 3)
+            impl, model = batch.compare(c, ins, keep=keep, what='batch')
+            if 'panic' in impl['reports']:
+                c.violation('total:panic:batch', 'a batch run panicked: %s' % impl['stderr'][-200:], dict(out=impl['stdout'][-400:]))
+            elif (impl['exit'] == 0) != all(x == 'ok' for x in impl['reports']) or len(impl['reports']) != len(ins):
+                c.violation('total:batch-status', 'exit status %s does not reflect the reports %s' % (impl['exit'], impl['reports']), dict(out=impl['stdout'][-400:]))
+            c.case(('batchrun', j), dict(kind='batch-model', n=len(ins), keep=keep, reports=impl['reports']) if j % 5 == 0 else None)
         # path without a file name, missing file
         for args in (['..'], ['/'], [os.path.join(d, 'nope.rsyn')], ['']):
             p = subprocess.run([core.CLI, '--out-dir', d] + args, capture_output=True, timeout=60, cwd=d)
